@@ -11,6 +11,9 @@ Line protocol of the `header` engine (leading token `header` stripped by `Drive.
           whole : hex = the model's complete stream
           prefix: hex = outhex with its first `nbits` bits replaced by the model's
                   payload-independent beginning (so equality ⇔ those bits agree)
+  oneshothdr <q> <lgwin> <inhex> <outhex>
+        the one-shot call (`encoder_compress`: large_window iff lgwin > 24, size hint = input length),
+        non-empty input; same answer format as `stream`
   b128 <v>                      → hex of `encode_base_128(v)` (significant bytes)
   bound <start> <count>         → FNV digest (hex) of `BrotliEncoderMaxCompressedSize(start .. start+count)`
   boundv <n>                    → the value (release-build arithmetic) and `!` if the last `+` overflows
@@ -53,6 +56,21 @@ def handle (args : List String) : String :=
     let i := ensureInitialized true p
     let tailTok := s!"lgwin={headerLgwin i.params} bits={i.lastBytesBits}"
     match streamStart true p (hexToBytes inhex) with
+    | .panic => "panic"
+    | .fuel => "fuel"
+    | .ok st =>
+      let m := if st.magic then "1" else "0"
+      if st.whole then s!"whole {bytesToHex (toBytes st.bits)} {tailTok} magic={m}"
+      else
+        let outBits := bytesToBits (hexToBytes outhex)
+        let spliced := st.bits ++ outBits.drop st.bits.length
+        s!"prefix {bytesToHex (toBytes spliced)} {tailTok} magic={m}"
+  | ["oneshothdr", q, lgwin, inhex, outhex] =>
+    let input := hexToBytes inhex
+    let p := oneshotParams (intArg q) (intArg lgwin) input.length
+    let i := ensureInitialized true p
+    let tailTok := s!"lgwin={headerLgwin i.params} bits={i.lastBytesBits}"
+    match streamStart true p input with
     | .panic => "panic"
     | .fuel => "fuel"
     | .ok st =>
